@@ -5,6 +5,7 @@ import (
 	"go/ast"
 	"go/token"
 	"go/types"
+	"golang.org/x/tools/go/ssa"
 	"strings"
 
 	"golang.org/x/tools/go/types/typeutil"
@@ -182,32 +183,27 @@ func checkC14(p *core.Program, r *core.Report) {
 		return
 	}
 
-	// SpawnJob: functions constructing a job literal
-	var spawnUnits []flow.FuncUnit
+	// SpawnJob: functions of the package that populate a job value's stop and closed fields with fresh channels (SSA: a
+	// literal and field-by-field construction are the same stores)
 	var spawnFn *types.Func
-	for _, u := range ix.all {
-		if u.Pkg != sp {
+	var spawnSSA *ssa.Function
+	nSpawn := 0
+	for _, fn := range p.RepoFuncs() {
+		if fn.Pkg == nil || fn.Pkg.Pkg != sp.Types || fn.Parent() != nil {
 			continue
 		}
-		info := sp.TypesInfo
-		var lit *ast.CompositeLit
-		ast.Inspect(u.Node, func(n ast.Node) bool {
-			if cl, ok := n.(*ast.CompositeLit); ok {
-				if tv, ok := info.Types[cl]; ok && namedOf(tv.Type) == jobT && len(cl.Elts) > 0 {
-					lit = cl
-				}
-			}
-			return true
-		})
-		if lit == nil {
+		stopCh, closedCh := ssaJobConstructor(fn, jobT, stopField, closedField)
+		if stopCh == nil {
 			continue
 		}
-		spawnUnits = append(spawnUnits, u)
-		spawnFn, _ = info.Defs[u.Node.(*ast.FuncDecl).Name].(*types.Func)
-		r.AnalysedFn(u.Name)
-		checkSpawnJob(p, r, u, lit, jobT, stopField, closedField)
+		nSpawn++
+		spawnSSA = fn
+		spawnFn, _ = fn.Object().(*types.Func)
+		_ = spawnFn
+		r.AnalysedFn(core.FuncName(fn))
+		checkSpawnJobSSA(p, r, fn, stopCh, closedCh)
 	}
-	r.Count("job constructors (SpawnJob)", len(spawnUnits))
+	r.Count("job constructors (SpawnJob)", nSpawn)
 	r.Floor("job constructors (SpawnJob)", 1)
 
 	// no close/send on the closed field, or close of the stop field, elsewhere in the repository
@@ -229,56 +225,59 @@ func checkC14(p *core.Program, r *core.Report) {
 		})
 	}
 
-	// server closures: every call site of the job constructor with two function arguments
+	// every call site of the job constructor: its two callbacks, as closures or named functions (SSA)
 	var serverJobFns []*types.Func
 	nSrv := 0
-	for _, u := range ix.all {
-		info := u.Pkg.TypesInfo
-		ast.Inspect(u.Node, func(n ast.Node) bool {
-			call, ok := n.(*ast.CallExpr)
-			if !ok || spawnFn == nil {
-				return true
-			}
-			if fn, _ := typeutil.Callee(info, call).(*types.Func); fn == nil || fn.Origin() != spawnFn || len(call.Args) != 2 {
-				return true
-			}
-			startLit := resolveFuncLit(info, u, call.Args[0])
-			shutLit := resolveFuncLit(info, u, call.Args[1])
-			if startLit == nil || shutLit == nil {
-				r.Undecided("O14.1", u.Name+": job closures", p.Pos(call.Pos()), "start/shutdown arguments of the job constructor are not function literals: idiom not recognised")
-				return true
-			}
-			usesServer := false
-			ast.Inspect(shutLit, func(m ast.Node) bool {
-				if c, ok := m.(*ast.CallExpr); ok {
-					if fn, ok := typeutil.Callee(info, c).(*types.Func); ok && strings.HasPrefix(fn.FullName(), "(*net/http.Server).") {
-						usesServer = true
+	usesHTTPServer := func(f *ssa.Function) bool {
+		for _, b := range f.Blocks {
+			for _, in := range b.Instrs {
+				if c, ok := in.(ssa.CallInstruction); ok {
+					if callee := c.Common().StaticCallee(); callee != nil && strings.HasPrefix(callee.String(), "(*net/http.Server).") {
+						return true
 					}
 				}
-				return true
-			})
-			ast.Inspect(startLit, func(m ast.Node) bool {
-				if c, ok := m.(*ast.CallExpr); ok {
-					if fn, ok := typeutil.Callee(info, c).(*types.Func); ok && strings.HasPrefix(fn.FullName(), "(*net/http.Server).") {
-						usesServer = true
-					}
-				}
-				return true
-			})
-			if usesServer {
-				nSrv++
-				r.AnalysedFn(u.Name)
-				if fn, ok := info.Defs[u.Node.(*ast.FuncDecl).Name].(*types.Func); ok {
-					serverJobFns = append(serverJobFns, fn)
-				}
-				checkServerClosures(p, r, u, startLit, shutLit)
-			} else if u.Pkg == sp {
-				// CombineJobs-like: shutdown closure that stops sub-jobs
-				r.AnalysedFn(u.Name)
-				checkCombine(p, r, u, shutLit, reqFn, awaitFn)
 			}
-			return true
-		})
+		}
+		return false
+	}
+	for _, caller := range p.RepoFuncs() {
+		if spawnSSA == nil {
+			break
+		}
+		for _, b := range caller.Blocks {
+			for _, in := range b.Instrs {
+				call, ok := in.(*ssa.Call)
+				if !ok || call.Common().StaticCallee() != spawnSSA || len(call.Common().Args) != 2 {
+					continue
+				}
+				startA := activationOf(&ssa.CallCommon{Value: call.Common().Args[0]})
+				shutA := activationOf(&ssa.CallCommon{Value: call.Common().Args[1]})
+				if startA == nil || shutA == nil {
+					r.Undecided("O14.1", core.FuncName(caller)+": job callbacks", p.Pos(call.Pos()), "start/shutdown arguments of the job constructor are not functions known at the call site: idiom not recognised")
+					continue
+				}
+				cobj, _ := caller.Object().(*types.Func)
+				if usesHTTPServer(startA.fn) || usesHTTPServer(shutA.fn) {
+					startLit, _ := startA.fn.Syntax().(*ast.FuncLit)
+					shutLit, _ := shutA.fn.Syntax().(*ast.FuncLit)
+					u, okU := ix.decls[cobj]
+					if startLit == nil || shutLit == nil || !okU {
+						r.Undecided("O14.1", core.FuncName(caller)+": server job callbacks", p.Pos(call.Pos()), "the callbacks that serve and shut down the http.Server are not closures of the function that holds the server")
+						continue
+					}
+					nSrv++
+					r.AnalysedFn(u.Name)
+					if cobj != nil {
+						serverJobFns = append(serverJobFns, cobj)
+					}
+					checkServerClosures(p, r, u, startLit, shutLit)
+				} else if caller.Pkg != nil && caller.Pkg.Pkg == sp.Types {
+					// CombineJobs-like: the shutdown callback stops sub-jobs
+					r.AnalysedFn(core.FuncName(caller))
+					checkCombineSSA(p, r, caller, shutA, reqFn, awaitFn)
+				}
+			}
+		}
 	}
 	r.Count("server job constructors (spawnServerJob)", nSrv)
 	r.Floor("server job constructors (spawnServerJob)", 1)
